@@ -240,6 +240,40 @@ static void cancelrace(int nops,unsigned seed,std::vector<aio::event_handler> &k
 	close(sp[0]); close(sp[1]);
 }
 
+// close racing with cancellation (what basic_io_device::close() does: cancel_io_events then ::close at once),
+// followed by a new socket that gets the same descriptor number: every handler must still run exactly once
+static void closerace(int nops,unsigned seed,std::vector<aio::event_handler> &keep)
+{
+	vt::rng R(seed);
+	for(int n=0;n<nops;n++) {
+		int sp[2]; socketpair(AF_UNIX,SOCK_STREAM,0,sp);
+		fcntl(sp[0],F_SETFL,O_NONBLOCK);
+		bv::emit("\"e\":\"Fd\",\"fd\":%d,\"peer\":%d",sp[0],sp[1]);
+		int hs[2]={-1,-1}; int cnt=0;
+		unsigned what=R(3);   // 0: in, 1: out, 2: both
+		for(int dir=0;dir<2;dir++) {
+			if(what!=2 && int(what)!=dir) continue;
+			int h=next_h++; ev_handler f={h}; aio::event_handler eh(f); keep.push_back(eh);
+			int ev = dir==0 ? (int)aio::io_events::in : (int)aio::io_events::out;
+			bv::emit("\"e\":\"Reg\",\"h\":%d,\"p\":%lu,\"kind\":\"io\",\"fd\":%d,\"ev\":%d",h,pid_of(eh.get_pointer().get()),sp[0],ev);
+			reg_count++;
+			srv->set_io_event(sp[0],ev,eh);
+			hs[cnt++]=h;
+		}
+		if(R(3)==0) { char ch='x'; ssize_t w=write(sp[1],&ch,1); (void)w; }
+		if(R(2)) { long long until=ptime::microseconds(ptime::now())+R(150); while(ptime::microseconds(ptime::now())<until) ; }
+		srv->cancel_io_events(sp[0]);
+		close(sp[0]); close(sp[1]);          // at once: the cancel may still be queued
+		bool ok=false;
+		for(int spin=0;spin<20000;spin++) {
+			ok=true; for(int i=0;i<cnt;i++) if(hstates[hs[i]].runs.load()==0) ok=false;
+			if(ok) break; usleep(100);
+		}
+		if(!ok) break;
+		progress++;
+	}
+}
+
 struct loop_runner {
 	void operator()() const
 	{
@@ -259,15 +293,58 @@ int main(int argc,char **argv)
 	unlink(out); bv::open(out);
 	base_ms=ptime::milliseconds(ptime::now());
 	long seed=vt::envl("VERIF_SEED",1);
-	hstates.resize((size_t)rounds*(producers+1)*nops*(mode=="cancelrace"?40:1)+16);
+	hstates.resize((size_t)rounds*(producers+1)*nops*(mode=="cancelrace"?40:(mode=="closerace"?3:1))+16);
 	for(int r=0;r<rounds;r++) {
 		srv=new aio::io_service(reactor);
 		ran_count=0; reg_count=0;
 		bv::emit("\"e\":\"Reset\",\"reactor\":\"%s\",\"canceled\":%d,\"mode\":\"%s\",\"producers\":%d",srv->reactor_name().c_str(),canceled_code(),mode.c_str(),producers);
 		std::vector<std::vector<aio::event_handler> > keep(producers);
 		std::vector<std::vector<aio::handler> > keep2(producers);
+		if(mode=="prestart") {
+			// operations queued before the loop runs for the first time, on a descriptor that is closed at once:
+			// its number goes to the loop's own wake-up pipe; afterwards a post from another thread must still wake the loop
+			for(int n=0;n<nops;n++) {
+				int sp[2]; socketpair(AF_UNIX,SOCK_STREAM,0,sp);
+				bv::emit("\"e\":\"Fd\",\"fd\":%d,\"peer\":%d",sp[0],sp[1]);
+				int h=next_h++; ev_handler f={h}; aio::event_handler eh(f); keep[0].push_back(eh);
+				int ev = (n+r)%2 ? (int)aio::io_events::out : (int)aio::io_events::in;
+				bv::emit("\"e\":\"Reg\",\"h\":%d,\"p\":%lu,\"kind\":\"io\",\"fd\":%d,\"ev\":%d",h,pid_of(eh.get_pointer().get()),sp[0],ev);
+				reg_count++;
+				srv->set_io_event(sp[0],ev,eh);
+				srv->cancel_io_events(sp[0]);
+				close(sp[0]); close(sp[1]);
+			}
+			booster::thread loop2((loop_runner()));
+			usleep(30000);
+			for(int n=0;n<3;n++) {
+				int h=next_h++; plain_handler f={h}; aio::handler hh(f); keep2[0].push_back(hh);
+				bv::emit("\"e\":\"Reg\",\"h\":%d,\"p\":%lu,\"kind\":\"post\"",h,pid_of(hh.get_pointer().get()));
+				reg_count++; srv->post(hh);
+				for(int spin=0;spin<30000 && hstates[h].runs.load()==0;spin++) usleep(100);
+				usleep(2000);
+			}
+			bv::emit("\"e\":\"Quiesce\",\"reg\":%ld,\"ran\":%ld",reg_count.load(),ran_count.load());
+			if(ran_count.load()<reg_count.load()) { bv::close(); _exit(0); } // a loop that lost handlers may never stop: do not join it
+			srv->stop();
+			loop2.join();
+			keep.clear(); keep2.clear();
+			delete srv; srv=0;
+			continue;
+		}
 		booster::thread loop((loop_runner()));
 		std::vector<booster::thread *> th;
+		if(mode=="closerace") {
+			usleep(1000);
+			closerace(nops,seed*19+r*5+reactor,keep[0]);
+			for(int spin=0;spin<30000 && ran_count.load()<reg_count.load();spin++) usleep(100);
+			bv::emit("\"e\":\"Quiesce\",\"reg\":%ld,\"ran\":%ld",reg_count.load(),ran_count.load());
+			if(ran_count.load()<reg_count.load()) { bv::close(); _exit(0); } // a loop that lost handlers may never stop: do not join it
+			srv->stop();
+			loop.join();
+			keep.clear(); keep2.clear();
+			delete srv; srv=0;
+			continue;
+		}
 		if(mode=="cancelrace") {
 			race_done=false;
 			race_poster rp; rp.keep2=&keep2[0]; rp.seed=seed*13+r;
@@ -276,6 +353,7 @@ int main(int argc,char **argv)
 			race_done=true; pt.join();
 			for(int spin=0;spin<50000 && ran_count.load()<reg_count.load();spin++) usleep(100);
 			bv::emit("\"e\":\"Quiesce\",\"reg\":%ld,\"ran\":%ld",reg_count.load(),ran_count.load());
+			if(ran_count.load()<reg_count.load()) { bv::close(); _exit(0); } // a loop that lost handlers may never stop: do not join it
 			srv->stop();
 			loop.join();
 			keep.clear(); keep2.clear();
@@ -286,6 +364,7 @@ int main(int argc,char **argv)
 			usleep(2000);
 			pingpong(nops,seed*31+r*7+reactor,keep[0],keep2[0]);
 			bv::emit("\"e\":\"Quiesce\",\"reg\":%ld,\"ran\":%ld",reg_count.load(),ran_count.load());
+			if(ran_count.load()<reg_count.load()) { bv::close(); _exit(0); } // a loop that lost handlers may never stop: do not join it
 			srv->stop();
 			loop.join();
 			keep.clear(); keep2.clear();
@@ -309,6 +388,7 @@ int main(int argc,char **argv)
 			// quiesce: every registered handler must have run (the loop keeps running)
 			for(int spin=0;spin<100000 && ran_count.load()<reg_count.load();spin++) usleep(100);
 			bv::emit("\"e\":\"Quiesce\",\"reg\":%ld,\"ran\":%ld",reg_count.load(),ran_count.load());
+			if(ran_count.load()<reg_count.load()) { bv::close(); _exit(0); } // a loop that lost handlers may never stop: do not join it
 			srv->stop();
 			loop.join();
 		}
